@@ -335,6 +335,22 @@ fn parse_ref(s: &[char], pos: &mut usize) -> R {
 
 type F = FlatEx<f64>;
 type D<'a> = DeepEx<'a, f64>;
+
+/// `partial_iter`, or - when `alt` and the index list allows it - `partial_nth` / `partial`: C09 says
+/// they are the same (n-th = n single derivatives, order zero = identity)
+fn diff_entry<'a, E: exmex::Differentiate<'a, f64> + Clone>(a: E, idxs: &[usize], alt: bool) -> exmex::ExResult<E> {
+    let all_equal = idxs.windows(2).all(|w| w[0] == w[1]);
+    if alt && all_equal {
+        match idxs.len() {
+            0 => a.partial_nth(0, 0),
+            1 => a.partial(idxs[0]),
+            n => a.partial_nth(idxs[0], n),
+        }
+    } else {
+        a.partial_iter(idxs.iter().copied())
+    }
+}
+
 #[derive(Clone)]
 enum P<'a> {
     Fl(F),
@@ -558,8 +574,11 @@ pub fn run(f: &[&str]) -> String {
                     _ => {
                         let idxs: Vec<usize> = if g[2] == "-" { vec![] } else { g[2].split(',').map(|x| x.parse().unwrap()).collect() };
                         match pool[idx(g[1])].imp.clone() {
-                            P::Fl(a) => a.partial_iter(idxs.iter().copied()).map(P::Fl),
-                            P::De(a) => a.partial_iter(idxs.iter().copied()).map(P::De),
+                            // the same derivative through the other entry points: `partial_nth` when all
+                            // indices are equal (order zero included), `partial` for a single index -
+                            // chosen by the parity of the target so that the request decides it
+                            P::Fl(a) => diff_entry(a, &idxs, g[1].parse::<usize>().unwrap_or(0) % 2 == 0).map(P::Fl),
+                            P::De(a) => diff_entry(a, &idxs, g[1].parse::<usize>().unwrap_or(0) % 2 == 0).map(P::De),
                         }
                     }
                 }
